@@ -1,0 +1,21 @@
+//go:build verif
+
+package vigil
+
+import "sync/atomic"
+
+// VerifCount returns the raw vigil counter (verification builds only).
+func VerifCount(vg Vigil) int64 {
+	return atomic.LoadInt64(&vg.(*vigil).vigils)
+}
+
+// VerifLockFree reports whether the condition variable's mutex could be taken right now
+// (it is released again immediately).
+func VerifLockFree(vg Vigil) bool {
+	v := vg.(*vigil)
+	if v.mu.TryLock() {
+		v.mu.Unlock()
+		return true
+	}
+	return false
+}
